@@ -61,7 +61,7 @@ def main():
             res = {}
             for pid in targets:
                 t0 = time.time()
-                env = dict(os.environ, VALIDA_SRC=tmp)
+                env = dict(os.environ, VALIDA_SRC=tmp, VF_OUT_DIR=os.path.join(tmp, "vf-out"))
                 r = subprocess.run([os.path.join(ROOT, "check"), pid, "--tier", a.tier], cwd=ROOT, env=env,
                                    capture_output=True, text=True, timeout=3600)
                 keys = [l.split("key=")[1].split()[0] for l in r.stdout.splitlines() if l.startswith("VIOLATION")]
